@@ -25,21 +25,21 @@ PROPS["C02"] = dict(
     outside="aarch64 NEON/SVE2 kernels; AVX-512 popcount path of the `simd` build (see C01 simd build)",
     assumptions=["_pdep_u64, _mm256_shuffle_epi8, _mm256_sad_epu8 replaced by models.rs"],
     harnesses=[
-        H("c02_select_ctz", timeout=900, bounds="all x:u64, all k:u32, unwind 66"),
-        H("c02_select_pdep", timeout=600, bounds="all x:u64, all k:u32; PDEP model"),
-        H("c02_select_broadword", timeout=900, bounds="all x:u64, all k:u32"),
-        H("c02_select_dispatch", timeout=900, bounds="all x, k; has_fast_bmi2 solver-chosen", replay="trace"),
-        H("c02_select_in_byte", timeout=120, bounds="all bytes, all k:u32"),
-        H("c02_popcount_word", timeout=300, bounds="all x:u64"),
-        H("c02_popcount_512", timeout=600, bounds="all [u8; 64]"),
-        H("c02_block_popcount_portable", timeout=600, bounds="all [u64; 8]"),
-        H("c02_block_popcount_avx2", timeout=600, bounds="all [u64; 8], lane-order byte-wise spec"),
-        H("c02_block_popcount_avx2_oneword", timeout=600, bounds="one arbitrary word at arbitrary position, rest zero"),
-        H("c02_find_unmatched_close_in_word", timeout=600, bounds="all x:u64"),
-        H("c02_find_close_in_word", timeout=900, bounds="all x:u64, all p:u32"),
-        H("c02_contract_sound", timeout=900, bounds="all x, k: contract result == spec"),
-        H("c02_contract_total", timeout=900, bounds="all x, k: spec result satisfies the contract"),
-        H("c02_witness_must_fail", kind="witness", tier="thorough", timeout=300, bounds="vacuity witness"),
+        H("c02_select_ctz", tier="quick", timeout=900, bounds="all x:u64, all k:u32, unwind 66"),
+        H("c02_select_pdep", tier="quick", timeout=600, bounds="all x:u64, all k:u32; PDEP model"),
+        H("c02_select_broadword", tier="quick", timeout=900, bounds="all x:u64, all k:u32"),
+        H("c02_select_dispatch", tier="quick", timeout=900, bounds="all x, k; has_fast_bmi2 solver-chosen", replay="trace"),
+        H("c02_select_in_byte", tier="quick", timeout=120, bounds="all bytes, all k:u32"),
+        H("c02_popcount_word", tier="quick", timeout=300, bounds="all x:u64"),
+        H("c02_popcount_512", tier="quick", timeout=600, bounds="all [u8; 64]"),
+        H("c02_block_popcount_portable", tier="quick", timeout=600, bounds="all [u64; 8]"),
+        H("c02_block_popcount_avx2", tier="quick", timeout=600, bounds="all [u64; 8], lane-order byte-wise spec"),
+        H("c02_block_popcount_avx2_oneword", tier="quick", timeout=600, bounds="one arbitrary word at arbitrary position, rest zero"),
+        H("c02_find_unmatched_close_in_word", tier="quick", timeout=600, bounds="all x:u64"),
+        H("c02_find_close_in_word", tier="quick", timeout=900, bounds="all x:u64, all p:u32"),
+        H("c02_contract_sound", tier="quick", timeout=900, bounds="all x, k: contract result == spec"),
+        H("c02_contract_total", tier="quick", timeout=900, bounds="all x, k: spec result satisfies the contract"),
+        H("c02_witness_must_fail", tier="thorough", kind="witness", timeout=300, bounds="vacuity witness"),
     ],
 )
 
@@ -64,36 +64,36 @@ PROPS["C01"] = dict(
     assumptions=["has_fast_bmi2 is a solver-chosen boolean; is_x86_feature_detected!(avx2) fixed per harness as listed",
                  "_pdep_u64, _mm256_shuffle_epi8, _mm256_sad_epu8 replaced by models.rs"],
     harnesses=[
-        H("c01_rankdir_9", timeout=300, bounds="all [u64; 9]"),
-        H("c01_rankdir_17", timeout=900, tier="thorough", bounds="all [u64; 17]"),
-        H("c01_selidx_2w_rate1", timeout=900, unwindset={r"SelectIndex.*5build.*\.0$": 131}, bounds="all [u64; 2], rate 1"),
-        H("c01_selidx_3w_rate2", timeout=900, tier="thorough", unwindset={r"SelectIndex.*5build.*\.0$": 99}, bounds="all [u64; 3], rate 2"),
-        H("c01_selidx_3w_rate3", timeout=900, unwindset={r"SelectIndex.*5build.*\.0$": 67}, bounds="all [u64; 3], rate 3"),
-        H("c01_selidx_4w_rate64", timeout=900, bounds="all [u64; 4], rate 64"),
-        H("c01_selidx_4w_rate100", timeout=900, tier="thorough", bounds="all [u64; 4], rate 100"),
-        H("c01_selidx_4w_rate256", timeout=900, bounds="all [u64; 4], rate 256"),
-        H("c01_selidx_3w_rate4096", timeout=900, tier="thorough", bounds="all [u64; 3], rate 4096"),
-        H("c01_scan_19_s0_portable", timeout=900, bounds="19 words, start 0, portable block popcount"),
-        H("c01_scan_19_s0_avx2", timeout=900, bounds="19 words, start 0, AVX2 block popcount (modelled)"),
-        H("c01_scan_19_s2_any", timeout=900, tier="thorough", bounds="19 words, start 2, dispatch symbolic", replay="trace"),
-        H("c01_scan_19_s3_portable", timeout=900, tier="thorough", bounds="19 words, start 3"),
-        H("c01_scan_19_s10_any", timeout=900, bounds="19 words, start 10 (prologue 8 + 1 tail word), dispatch symbolic", replay="trace"),
-        H("c01_scan_27_s0_portable", timeout=1800, tier="thorough", bounds="27 words, start 0: two blocks"),
-        H("c01_scan_27_s1_avx2", timeout=1800, tier="thorough", bounds="27 words, start 1: two AVX2 blocks + tail"),
-        H("c01_scan_9_s0_any", timeout=600, bounds="9 words, start 0 (prologue + 1-word tail)", replay="trace"),
-        H("c01_scan_start_out_of_range", timeout=120, bounds="all start >= len"),
-        H("c01_popcount_words_9", timeout=300, bounds="all [u64; 9], every prefix length"),
-        H("c01_bv_rank_len100_rate256", timeout=900, unwindset=bvu(3), bounds="2+1 words, len 100, rate 256, all i <= 200", replay="trace"),
-        H("c01_bv_rank_len128_rate64", timeout=900, unwindset=bvu(4), tier="thorough", bounds="len 128, rate 64", replay="trace"),
-        H("c01_bv_rank_len65_rate4096", timeout=900, unwindset=bvu(3), bounds="len 65, rate 4096", replay="trace"),
-        H("c01_bv_select_len100_rate256", timeout=900, unwindset=bvu(3), bounds="len 100, rate 256 (default), all k <= 200", replay="trace"),
-        H("c01_bv_select_len100_rate1", timeout=1800, unwindset=bvu(102), tier="thorough", bounds="len 100, rate 1", replay="trace"),
-        H("c01_bv_select_len128_rate3", timeout=1800, unwindset=bvu(45), tier="thorough", bounds="len 128, rate 3", replay="trace"),
-        H("c01_bv_select_len65_rate64", timeout=900, unwindset=bvu(4), bounds="len 65, rate 64", replay="trace"),
-        H("c01_bv_select_len64_rate2", timeout=1800, unwindset=bvu(35), tier="thorough", bounds="len 64, rate 2", replay="trace"),
-        H("c01_bv_select_len63_rate4096", timeout=900, unwindset=bvu(3), tier="thorough", bounds="len 63, rate 4096", replay="trace"),
-        H("c01_bv_len0_len1", timeout=600, unwindset=SEL64, bounds="len 0 and len 1 over arbitrary words, rate symbolic", replay="trace"),
-        H("c01_witness_must_fail", kind="witness", tier="thorough", timeout=300, bounds="vacuity witness"),
+        H("c01_rankdir_9", tier="quick", timeout=300, bounds="all [u64; 9]"),
+        H("c01_rankdir_17", tier="thorough", timeout=900, bounds="all [u64; 17]"),
+        H("c01_selidx_2w_rate1", tier="thorough", timeout=900, unwindset={r"SelectIndex.*5build.*\.0$": 131}, bounds="all [u64; 2], rate 1"),
+        H("c01_selidx_3w_rate2", tier="thorough", timeout=900, unwindset={r"SelectIndex.*5build.*\.0$": 99}, bounds="all [u64; 3], rate 2"),
+        H("c01_selidx_3w_rate3", tier="thorough", timeout=900, unwindset={r"SelectIndex.*5build.*\.0$": 67}, bounds="all [u64; 3], rate 3"),
+        H("c01_selidx_4w_rate64", tier="quick", timeout=900, bounds="all [u64; 4], rate 64"),
+        H("c01_selidx_4w_rate100", tier="thorough", timeout=900, bounds="all [u64; 4], rate 100"),
+        H("c01_selidx_4w_rate256", tier="quick", timeout=900, bounds="all [u64; 4], rate 256"),
+        H("c01_selidx_3w_rate4096", tier="thorough", timeout=900, bounds="all [u64; 3], rate 4096"),
+        H("c01_scan_19_s0_portable", tier="quick", timeout=900, bounds="19 words, start 0, portable block popcount"),
+        H("c01_scan_19_s0_avx2", tier="thorough", timeout=900, bounds="19 words, start 0, AVX2 block popcount (modelled)"),
+        H("c01_scan_19_s2_any", tier="thorough", timeout=900, bounds="19 words, start 2, dispatch symbolic", replay="trace"),
+        H("c01_scan_19_s3_portable", tier="thorough", timeout=900, bounds="19 words, start 3"),
+        H("c01_scan_19_s10_any", tier="quick", timeout=900, bounds="19 words, start 10 (prologue 8 + 1 tail word), dispatch symbolic", replay="trace"),
+        H("c01_scan_27_s0_portable", tier="thorough", timeout=1800, bounds="27 words, start 0: two blocks"),
+        H("c01_scan_27_s1_avx2", tier="thorough", timeout=1800, bounds="27 words, start 1: two AVX2 blocks + tail"),
+        H("c01_scan_9_s0_any", tier="quick", timeout=600, bounds="9 words, start 0 (prologue + 1-word tail)", replay="trace"),
+        H("c01_scan_start_out_of_range", tier="quick", timeout=120, bounds="all start >= len"),
+        H("c01_popcount_words_9", tier="quick", timeout=300, bounds="all [u64; 9], every prefix length"),
+        H("c01_bv_rank_len100_rate256", tier="thorough", timeout=900, unwindset=bvu(3), bounds="2+1 words, len 100, rate 256, all i <= 200", replay="trace"),
+        H("c01_bv_rank_len128_rate64", tier="thorough", timeout=900, unwindset=bvu(4), bounds="len 128, rate 64", replay="trace"),
+        H("c01_bv_rank_len65_rate4096", tier="thorough", timeout=900, unwindset=bvu(3), bounds="len 65, rate 4096", replay="trace"),
+        H("c01_bv_select_len100_rate256", tier="thorough", timeout=900, unwindset=bvu(3), bounds="len 100, rate 256 (default), all k <= 200", replay="trace"),
+        H("c01_bv_select_len100_rate1", tier="thorough", timeout=1800, unwindset=bvu(102), bounds="len 100, rate 1", replay="trace"),
+        H("c01_bv_select_len128_rate3", tier="thorough", timeout=1800, unwindset=bvu(45), bounds="len 128, rate 3", replay="trace"),
+        H("c01_bv_select_len65_rate64", tier="thorough", timeout=900, unwindset=bvu(4), bounds="len 65, rate 64", replay="trace"),
+        H("c01_bv_select_len64_rate2", tier="thorough", timeout=1800, unwindset=bvu(35), bounds="len 64, rate 2", replay="trace"),
+        H("c01_bv_select_len63_rate4096", tier="thorough", timeout=900, unwindset=bvu(3), bounds="len 63, rate 4096", replay="trace"),
+        H("c01_bv_len0_len1", tier="quick", timeout=600, unwindset=SEL64, bounds="len 0 and len 1 over arbitrary words, rate symbolic", replay="trace"),
+        H("c01_witness_must_fail", tier="thorough", kind="witness", timeout=300, bounds="vacuity witness"),
     ],
 )
 
@@ -123,42 +123,42 @@ PROPS["C03"] = dict(
              "portable block popcount inside the EF scan (C01 decides scan_select on both paths)"),
     assumptions=["AVX2 block popcount path taken and modelled (kernel decided in C02)", "in-word select on the CTZ path unless noted"],
     harnesses=[
-        H("c03_get_n1_last0", timeout=600, unwindset=EFU, bounds="n=1, last=0"),
-        H("c03_get_n1_lastmax", timeout=600, unwindset=EFU, bounds="n=1, last=u32::MAX"),
-        H("c03_get_n4_last3", timeout=600, unwindset=EFU, bounds="n=4, last=3 (low_width 0)"),
-        H("c03_get_n4_last1000", timeout=600, unwindset=EFU, bounds="n=4, last=1000"),
-        H("c03_get_n4_last1000_pdep", timeout=600, unwindset=EFU, bounds="n=4, last=1000, PDEP select path"),
-        H("c03_get_n4_lastmax", timeout=600, unwindset=EFU, bounds="n=4, last=u32::MAX"),
-        H("c03_get_n6_last1m", timeout=900, unwindset=EFU, tier="thorough", bounds="n=6, last=2^20"),
-        H("c03_get_n8_last1000", timeout=900, unwindset=EFU, tier="thorough", bounds="n=8, last=1000"),
-        H("c03_get_n8_last7", timeout=900, unwindset=EFU, tier="thorough", bounds="n=8, last=7 (dense)"),
-        H("c03_pred_n4_last1000", timeout=900, unwindset=PRED4, bounds="n=4, last=1000, all q"),
-        H("c03_pred_n4_lastmax", timeout=900, unwindset=PRED4, bounds="n=4, last=u32::MAX, all q"),
-        H("c03_pred_n6_last5", timeout=900, unwindset=PRED4, tier="thorough", bounds="n=6, last=5 (duplicates forced)"),
-        H("c03_pred_n8_last1000", timeout=1800, unwindset=PRED8, tier="thorough", bounds="n=8, last=1000"),
-        H("c03_iter_n4_last1000", timeout=600, unwindset=EFU, bounds="n=4 iteration"),
-        H("c03_iter_n6_last1m", timeout=900, unwindset=EFU, tier="thorough", bounds="n=6 iteration"),
-        H("c03_iter_n5_last4", timeout=600, unwindset=EFU, tier="thorough", bounds="n=5 dense iteration"),
-        H("c03_cursor_current_n4_last1000", timeout=1200, unwindset=efk(8), tier="quick", bounds="one-step induction: current_n4_last1000"),
-        H("c03_cursor_adv1_n4_last1000", timeout=1200, unwindset=efk(8), tier="quick", bounds="one-step induction: adv1_n4_last1000"),
-        H("c03_cursor_advby_n4_last1000", timeout=1200, unwindset=efk(8), tier="quick", bounds="one-step induction: advby_n4_last1000"),
-        H("c03_cursor_seek_n4_last1000", timeout=1200, unwindset=efk(8), tier="quick", bounds="one-step induction: seek_n4_last1000"),
-        H("c03_cursor_adv1_n4_lastmax", timeout=1200, unwindset=efk(8), tier="thorough", bounds="one-step induction: adv1_n4_lastmax"),
-        H("c03_cursor_advby_n4_lastmax", timeout=1200, unwindset=efk(8), tier="quick", bounds="one-step induction: advby_n4_lastmax"),
-        H("c03_cursor_adv1_n6_last5", timeout=1200, unwindset=efk(10), tier="thorough", bounds="one-step induction: adv1_n6_last5"),
-        H("c03_cursor_advby_n6_last5", timeout=1200, unwindset=efk(10), tier="thorough", bounds="one-step induction: advby_n6_last5"),
-        H("c03_cursor_seek_n6_last5", timeout=1200, unwindset=efk(10), tier="thorough", bounds="one-step induction: seek_n6_last5"),
-        H("c03_cursor_adv1_n8_last1000", timeout=1200, unwindset=efk(12), tier="thorough", bounds="one-step induction: adv1_n8_last1000"),
-        H("c03_cursor_advby_n8_last1000", timeout=1200, unwindset=efk(12), tier="thorough", bounds="one-step induction: advby_n8_last1000"),
-        H("c03_cursor_adv1_n6_last300", timeout=1200, unwindset=efk(10), tier="thorough", bounds="one-step induction: adv1_n6_last300"),
-        H("c03_cursor_advby_n6_last300", timeout=1200, unwindset=efk(10), tier="quick", bounds="one-step induction: advby_n6_last300"),
-        H("c03_cursor_exhausted_n4_last1000", timeout=1200, unwindset=efk(8), bounds="any op after exhaustion"),
-        H("c03_cursor_skeleton300_seek", timeout=2700, unwindset=SK300, bounds="300 concrete elements, any start, seek(any t)"),
-        H("c03_cursor_skeleton300_adv1", timeout=2700, unwindset=SK300, tier="thorough", bounds="300 concrete elements, any start, advance_one"),
-        H("c03_cursor_skeleton300_advby", timeout=2700, unwindset=SK300, tier="thorough", bounds="300 concrete elements, any start, advance_by(k<=70)"),
-        H("c03_get_pred_skeleton300", timeout=2700, unwindset=SK300, tier="thorough", bounds="300 concrete elements, get(any i), predecessor(any q)"),
-        H("c03_cursor0_and_empty", timeout=600, unwindset=EFU, bounds="cursor()==cursor_from(0); empty sequence"),
-        H("c03_witness_must_fail", kind="witness", tier="thorough", timeout=600, unwindset=EFU),
+        H("c03_get_n1_last0", tier="quick", timeout=600, unwindset=EFU, bounds="n=1, last=0"),
+        H("c03_get_n1_lastmax", tier="thorough", timeout=600, unwindset=EFU, bounds="n=1, last=u32::MAX"),
+        H("c03_get_n4_last3", tier="quick", timeout=600, unwindset=EFU, bounds="n=4, last=3 (low_width 0)"),
+        H("c03_get_n4_last1000", tier="quick", timeout=600, unwindset=EFU, bounds="n=4, last=1000"),
+        H("c03_get_n4_last1000_pdep", tier="quick", timeout=600, unwindset=EFU, bounds="n=4, last=1000, PDEP select path"),
+        H("c03_get_n4_lastmax", tier="quick", timeout=600, unwindset=EFU, bounds="n=4, last=u32::MAX"),
+        H("c03_get_n6_last1m", tier="thorough", timeout=900, unwindset=EFU, bounds="n=6, last=2^20"),
+        H("c03_get_n8_last1000", tier="thorough", timeout=900, unwindset=EFU, bounds="n=8, last=1000"),
+        H("c03_get_n8_last7", tier="thorough", timeout=900, unwindset=EFU, bounds="n=8, last=7 (dense)"),
+        H("c03_pred_n4_last1000", tier="quick", timeout=900, unwindset=PRED4, bounds="n=4, last=1000, all q"),
+        H("c03_pred_n4_lastmax", tier="thorough", timeout=900, unwindset=PRED4, bounds="n=4, last=u32::MAX, all q"),
+        H("c03_pred_n6_last5", tier="thorough", timeout=900, unwindset=PRED4, bounds="n=6, last=5 (duplicates forced)"),
+        H("c03_pred_n8_last1000", tier="thorough", timeout=1800, unwindset=PRED8, bounds="n=8, last=1000"),
+        H("c03_iter_n4_last1000", tier="quick", timeout=600, unwindset=EFU, bounds="n=4 iteration"),
+        H("c03_iter_n6_last1m", tier="thorough", timeout=900, unwindset=EFU, bounds="n=6 iteration"),
+        H("c03_iter_n5_last4", tier="thorough", timeout=600, unwindset=EFU, bounds="n=5 dense iteration"),
+        H("c03_cursor_current_n4_last1000", tier="quick", timeout=1200, unwindset=efk(8), bounds="one-step induction: current_n4_last1000"),
+        H("c03_cursor_adv1_n4_last1000", tier="quick", timeout=1200, unwindset=efk(8), bounds="one-step induction: adv1_n4_last1000"),
+        H("c03_cursor_advby_n4_last1000", tier="quick", timeout=1200, unwindset=efk(8), bounds="one-step induction: advby_n4_last1000"),
+        H("c03_cursor_seek_n4_last1000", tier="quick", timeout=1200, unwindset=efk(8), bounds="one-step induction: seek_n4_last1000"),
+        H("c03_cursor_adv1_n4_lastmax", tier="thorough", timeout=1200, unwindset=efk(8), bounds="one-step induction: adv1_n4_lastmax"),
+        H("c03_cursor_advby_n4_lastmax", tier="thorough", timeout=1200, unwindset=efk(8), bounds="one-step induction: advby_n4_lastmax"),
+        H("c03_cursor_adv1_n6_last5", tier="thorough", timeout=1200, unwindset=efk(10), bounds="one-step induction: adv1_n6_last5"),
+        H("c03_cursor_advby_n6_last5", tier="thorough", timeout=1200, unwindset=efk(10), bounds="one-step induction: advby_n6_last5"),
+        H("c03_cursor_seek_n6_last5", tier="thorough", timeout=1200, unwindset=efk(10), bounds="one-step induction: seek_n6_last5"),
+        H("c03_cursor_adv1_n8_last1000", tier="thorough", timeout=1200, unwindset=efk(12), bounds="one-step induction: adv1_n8_last1000"),
+        H("c03_cursor_advby_n8_last1000", tier="thorough", timeout=1200, unwindset=efk(12), bounds="one-step induction: advby_n8_last1000"),
+        H("c03_cursor_adv1_n6_last300", tier="thorough", timeout=1200, unwindset=efk(10), bounds="one-step induction: adv1_n6_last300"),
+        H("c03_cursor_advby_n6_last300", tier="thorough", timeout=1200, unwindset=efk(10), bounds="one-step induction: advby_n6_last300"),
+        H("c03_cursor_exhausted_n4_last1000", tier="quick", timeout=1200, unwindset=efk(8), bounds="any op after exhaustion"),
+        H("c03_cursor_skeleton300_seek", tier="thorough", timeout=2700, unwindset=SK300, bounds="300 concrete elements, any start, seek(any t)"),
+        H("c03_cursor_skeleton300_adv1", tier="thorough", timeout=2700, unwindset=SK300, bounds="300 concrete elements, any start, advance_one"),
+        H("c03_cursor_skeleton300_advby", tier="thorough", timeout=2700, unwindset=SK300, bounds="300 concrete elements, any start, advance_by(k<=70)"),
+        H("c03_get_pred_skeleton300", tier="thorough", timeout=2700, unwindset=SK300, bounds="300 concrete elements, get(any i), predecessor(any q)"),
+        H("c03_cursor0_and_empty", tier="quick", timeout=600, unwindset=EFU, bounds="cursor()==cursor_from(0); empty sequence"),
+        H("c03_witness_must_fail", tier="thorough", kind="witness", timeout=600, unwindset=EFU),
     ],
 )
 
@@ -175,20 +175,20 @@ PROPS["C12"] = dict(
     outside="symbolic texts longer than 10 bytes; texts with more than 48 lines; the EliasFano encoding itself (C03)",
     assumptions=["the EliasFano container (build/get/predecessor/len) is replaced by its plain-sequence specification; C03 decides that the real one answers identically"],
     harnesses=[
-        H("c12_text_len0", timeout=2700, unwindset=l12(0, 1), tier="quick", bounds="all 0-byte texts, all query histories (q1; q2; q2)"),
-        H("c12_text_len1", timeout=2700, unwindset=l12(1, 1), tier="quick", bounds="all 1-byte texts, all query histories (q1; q2; q2)"),
-        H("c12_text_len2", timeout=2700, unwindset=l12(2, 2), tier="quick", bounds="all 2-byte texts, all query histories (q1; q2; q2)"),
-        H("c12_text_len3", timeout=2700, unwindset=l12(3, 3), tier="quick", bounds="all 3-byte texts, all query histories (q1; q2; q2)"),
-        H("c12_text_len4", timeout=2700, unwindset=l12(4, 4), tier="quick", bounds="all 4-byte texts, all query histories (q1; q2; q2)"),
-        H("c12_text_len5", timeout=2700, unwindset=l12(5, 5), tier="thorough", bounds="all 5-byte texts, all query histories (q1; q2; q2)"),
-        H("c12_text_len6", timeout=2700, unwindset=l12(6, 6), tier="thorough", bounds="all 6-byte texts, all query histories (q1; q2; q2)"),
-        H("c12_text_len8", timeout=2700, unwindset=l12(8, 8), tier="thorough", bounds="all 8-byte texts, all query histories (q1; q2; q2)"),
-        H("c12_inverse_len3", timeout=2700, unwindset=l12(3, 3), tier="quick", bounds="all 3-byte texts: to_offset and round trip"),
-        H("c12_inverse_len5", timeout=2700, unwindset=l12(5, 5), tier="thorough", bounds="all 5-byte texts: to_offset and round trip"),
-        H("c12_inverse_len7", timeout=2700, unwindset=l12(7, 7), tier="thorough", bounds="all 7-byte texts: to_offset and round trip"),
-        H("c12_skeleton_20", timeout=2700, unwindset=l12(46, 24), bounds="concrete 20-line text, all query pairs"),
-        H("c12_skeleton_40", timeout=2700, unwindset=l12(76, 44), tier="thorough", bounds="concrete 40-line text, all query pairs"),
-        H("c12_witness_must_fail", kind="witness", tier="thorough", timeout=900, unwindset=l12(3, 3)),
+        H("c12_text_len0", tier="quick", timeout=2700, unwindset=l12(0, 1), bounds="all 0-byte texts, all query histories (q1; q2; q2)"),
+        H("c12_text_len1", tier="quick", timeout=2700, unwindset=l12(1, 1), bounds="all 1-byte texts, all query histories (q1; q2; q2)"),
+        H("c12_text_len2", tier="quick", timeout=2700, unwindset=l12(2, 2), bounds="all 2-byte texts, all query histories (q1; q2; q2)"),
+        H("c12_text_len3", tier="quick", timeout=2700, unwindset=l12(3, 3), bounds="all 3-byte texts, all query histories (q1; q2; q2)"),
+        H("c12_text_len4", tier="thorough", timeout=2700, unwindset=l12(4, 4), bounds="all 4-byte texts, all query histories (q1; q2; q2)"),
+        H("c12_text_len5", tier="thorough", timeout=2700, unwindset=l12(5, 5), bounds="all 5-byte texts, all query histories (q1; q2; q2)"),
+        H("c12_text_len6", tier="thorough", timeout=2700, unwindset=l12(6, 6), bounds="all 6-byte texts, all query histories (q1; q2; q2)"),
+        H("c12_text_len8", tier="thorough", timeout=2700, unwindset=l12(8, 8), bounds="all 8-byte texts, all query histories (q1; q2; q2)"),
+        H("c12_inverse_len3", tier="quick", timeout=2700, unwindset=l12(3, 3), bounds="all 3-byte texts: to_offset and round trip"),
+        H("c12_inverse_len5", tier="thorough", timeout=2700, unwindset=l12(5, 5), bounds="all 5-byte texts: to_offset and round trip"),
+        H("c12_inverse_len7", tier="thorough", timeout=2700, unwindset=l12(7, 7), bounds="all 7-byte texts: to_offset and round trip"),
+        H("c12_skeleton_20", tier="quick", timeout=2700, unwindset=l12(46, 24), bounds="concrete 20-line text, all query pairs"),
+        H("c12_skeleton_40", tier="quick", timeout=2700, unwindset=l12(76, 44), bounds="concrete 40-line text, all query pairs"),
+        H("c12_witness_must_fail", tier="thorough", kind="witness", timeout=900, unwindset=l12(3, 3)),
     ],
 )
 
@@ -203,24 +203,24 @@ PROPS["C17"] = dict(
                  "in the step harnesses the tables' private sampled select (ib_select1_with_state) is replaced by its specification; c17_ib_select_* decide the real one against it",
                  "the representation invariant written in the harness (inv) is what makes the induction sound; it is checked on the constructor's state"],
     harnesses=[
-        H("c17_open_step_n4_tl100", timeout=1200, mem_gb=26, bounds="starts, n=4, text_len 100, positions < 100"),
-        H("c17_open_step_n5_tl128", timeout=1800, mem_gb=26, tier="thorough", bounds="starts, n=5, text_len 128"),
-        H("c17_open_step_n4_tl64", timeout=1200, mem_gb=26, bounds="starts, n=4, text_len 64, positions < 64"),
-        H("c17_open_step_n6_tl100", timeout=2700, mem_gb=26, tier="thorough", bounds="starts, n=6, text_len 100"),
-        H("c17_open_step_n4_tl100_eof", timeout=1200, mem_gb=26, bounds="starts, n=4, text_len 100, positions <= 100"),
-        H("c17_open_step_n4_tl64_eof", timeout=1200, mem_gb=26, bounds="starts, n=4, text_len 64, positions <= 64"),
-        H("c17_end_step_n4_tl100", timeout=1200, mem_gb=26, bounds="ends, n=4, text_len 100"),
-        H("c17_end_step_n5_tl128", timeout=1800, mem_gb=26, tier="thorough", bounds="ends, n=5, text_len 128"),
-        H("c17_end_step_n4_tl64", timeout=1200, mem_gb=26, bounds="ends, n=4, text_len 64"),
-        H("c17_end_step_n4_tl63", timeout=1200, mem_gb=26, tier="thorough", bounds="ends, n=4, text_len 63"),
-        H("c17_open_init_inv_n4", timeout=900, mem_gb=20, bounds="constructor state satisfies the invariant; compact iff monotone"),
-        H("c17_end_init_inv_n4", timeout=900, mem_gb=20, bounds="constructor state satisfies the invariant (ends)"),
-        H("c17_ib_select_n4_tl100", timeout=2700, mem_gb=30, tier="thorough", bounds="real sampled select == model, n=4, every k"),
-        H("c17_ib_select_n5_tl128", timeout=2700, mem_gb=30, tier="thorough", bounds="real sampled select == model, n=5"),
-        H("c17_dense_fallback_n4", timeout=900, mem_gb=20, bounds="non-monotone n=4"),
-        H("c17_open3_n4_tl100", timeout=2700, unwindset=EFU, tier="thorough", bounds="3-lookup histories from the fresh state, n=4"),
-        H("c17_end3_n4_tl100", timeout=2700, unwindset=EFU, tier="thorough", bounds="3-lookup histories from the fresh state, ends n=4"),
-        H("c17_witness_must_fail", kind="witness", tier="thorough", timeout=600, unwindset=EFU),
+        H("c17_open_step_n4_tl100", tier="quick", timeout=1200, mem_gb=26, bounds="starts, n=4, text_len 100, positions < 100"),
+        H("c17_open_step_n5_tl128", tier="thorough", timeout=1800, mem_gb=26, bounds="starts, n=5, text_len 128"),
+        H("c17_open_step_n4_tl64", tier="quick", timeout=1200, mem_gb=26, bounds="starts, n=4, text_len 64, positions < 64"),
+        H("c17_open_step_n6_tl100", tier="thorough", timeout=2700, mem_gb=26, bounds="starts, n=6, text_len 100"),
+        H("c17_open_step_n4_tl100_eof", tier="quick", timeout=1200, mem_gb=26, bounds="starts, n=4, text_len 100, positions <= 100"),
+        H("c17_open_step_n4_tl64_eof", tier="quick", timeout=1200, mem_gb=26, bounds="starts, n=4, text_len 64, positions <= 64"),
+        H("c17_end_step_n4_tl100", tier="thorough", timeout=1200, mem_gb=26, bounds="ends, n=4, text_len 100"),
+        H("c17_end_step_n5_tl128", tier="thorough", timeout=1800, mem_gb=26, bounds="ends, n=5, text_len 128"),
+        H("c17_end_step_n4_tl64", tier="thorough", timeout=1200, mem_gb=26, bounds="ends, n=4, text_len 64"),
+        H("c17_end_step_n4_tl63", tier="thorough", timeout=1200, mem_gb=26, bounds="ends, n=4, text_len 63"),
+        H("c17_open_init_inv_n4", tier="quick", timeout=900, mem_gb=20, bounds="constructor state satisfies the invariant; compact iff monotone"),
+        H("c17_end_init_inv_n4", tier="quick", timeout=900, mem_gb=20, bounds="constructor state satisfies the invariant (ends)"),
+        H("c17_ib_select_n4_tl100", tier="thorough", timeout=2700, mem_gb=30, bounds="real sampled select == model, n=4, every k"),
+        H("c17_ib_select_n5_tl128", tier="thorough", timeout=2700, mem_gb=30, bounds="real sampled select == model, n=5"),
+        H("c17_dense_fallback_n4", tier="quick", timeout=900, mem_gb=20, bounds="non-monotone n=4"),
+        H("c17_open3_n4_tl100", tier="thorough", timeout=2700, unwindset=EFU, bounds="3-lookup histories from the fresh state, n=4"),
+        H("c17_end3_n4_tl100", tier="thorough", timeout=2700, unwindset=EFU, bounds="3-lookup histories from the fresh state, ends n=4"),
+        H("c17_witness_must_fail", tier="thorough", kind="witness", timeout=600, unwindset=EFU),
     ],
 )
 
@@ -273,41 +273,41 @@ PROPS["C13"] = dict(
     outside="more than 8 symbolic bytes at once; windows at offsets not listed; aarch64",
     assumptions=["inside the validator harnesses the private error constructor err_at is replaced by a marker stub; the real one is decided by c13_err_at_*", "_mm256_max_epu8 and _mm256_testz_si256 replaced by models.rs; is_x86_feature_detected!(avx2) fixed or solver-chosen per harness"],
     harnesses=[
-        H("c13_scalar_len0to3", timeout=600, unwindset=u13(3), bounds="all strings of 0..=3 bytes"),
-        H("c13_scalar_len4", timeout=600, unwindset=u13(4), bounds="all 4-byte strings"),
-        H("c13_scalar_len5", timeout=900, unwindset=u13(5), bounds="all 5-byte strings"),
-        H("c13_scalar_len6", timeout=900, unwindset=u13(6), bounds="all 6-byte strings"),
-        H("c13_scalar_len7", timeout=1800, unwindset=u13(7), tier="thorough", bounds="all 7-byte strings"),
-        H("c13_scalar_len8", timeout=1800, unwindset=u13(8), tier="thorough", bounds="all 8-byte strings"),
-        H("c13_continuation_offset_is_valid_prefix", kind="finding", finding="C13-continuation-offset",
+        H("c13_scalar_len0to3", tier="quick", timeout=600, unwindset=u13(3), bounds="all strings of 0..=3 bytes"),
+        H("c13_scalar_len4", tier="quick", timeout=600, unwindset=u13(4), bounds="all 4-byte strings"),
+        H("c13_scalar_len5", tier="thorough", timeout=900, unwindset=u13(5), bounds="all 5-byte strings"),
+        H("c13_scalar_len6", tier="thorough", timeout=900, unwindset=u13(6), bounds="all 6-byte strings"),
+        H("c13_scalar_len7", tier="thorough", timeout=1800, unwindset=u13(7), bounds="all 7-byte strings"),
+        H("c13_scalar_len8", tier="thorough", timeout=1800, unwindset=u13(8), bounds="all 8-byte strings"),
+        H("c13_continuation_offset_is_valid_prefix", tier="quick", kind="finding", finding="C13-continuation-offset",
           finding_match=r"e\.offset == valid_up_to", timeout=600, unwindset=u13(4), bounds="all 4-byte strings"),
-        H("c13_scalar_win17_at9", timeout=900, unwindset=u13(17, 14), bounds="17 bytes, 6-byte window at 9"),
-        H("c13_scalar_win22_at10_multi", timeout=900, unwindset=u13(22, 36), tier="thorough", bounds="22 bytes multi-byte filler, 4-byte window at 10"),
-        H("c13_broadword_win12_at4", timeout=900, unwindset=u13(12, 14), bounds="12 bytes, 6-byte window at 4 (8-byte word skip)"),
-        H("c13_scalar_win20_at12", timeout=900, unwindset=u13(20, 14), tier="thorough", bounds="20 bytes, 6-byte window at 12"),
-        H("c13_broadword_win41_at30", timeout=900, unwindset=u13(41, 14), bounds="41 bytes, 6-byte window at 30 (32-byte block skip)"),
-        H("c13_broadword_win36_at0", timeout=900, unwindset=u13(36, 14), tier="thorough", bounds="36 bytes, 5-byte window at 0"),
-        H("c13_avx2_win33_at27", timeout=1800, unwindset=u13(33, 14), bounds="33 bytes, 6-byte window at 27 (crosses the chunk boundary)"),
-        H("c13_avx2_win36_at28", timeout=2700, unwindset=u13(36, 16), tier="thorough", bounds="36 bytes, 8-byte window at 28"),
-        H("c13_avx2_win36_at30", timeout=1800, unwindset=u13(36, 14), bounds="36 bytes, 6-byte window at 30"),
-        H("c13_avx2_win34_at0", timeout=1800, unwindset=u13(34, 14), tier="thorough", bounds="34 bytes, 6-byte window at 0"),
-        H("c13_avx2_win65_at60", timeout=2700, unwindset=u13(65, 14), tier="thorough", bounds="65 bytes, 5-byte window at 60 (second boundary)"),
-        H("c13_avx2_win40_at29_multi", timeout=1800, unwindset=u13(40, 36), tier="thorough", bounds="40 bytes multi-byte filler, 4-byte window at 29"),
-        H("c13_avx2_win8_at2", timeout=900, unwindset=u13(8, 14), bounds="8 bytes (tail-only path), 6-byte window"),
-        H("c13_avx2_win32_at24", timeout=1800, unwindset=u13(32, 16), tier="thorough", bounds="32 bytes exactly one chunk, 8-byte window at 24"),
-        H("c13_avx2_win40_at20_w16", timeout=2700, unwindset=u13(40, 16), tier="thorough", bounds="40 bytes, 16-byte window across the chunk boundary"),
-        H("c13_avx2_win66_at28", timeout=1800, unwindset=u13(66, 16), bounds="66 bytes, 8-byte window across the first chunk boundary, a full ASCII chunk after it"),
-        H("c13_avx2_win98_at58", timeout=2700, unwindset=u13(98, 16), tier="thorough", bounds="98 bytes, 8-byte window across the second chunk boundary"),
-        H("c13_avx2_full33", timeout=2700, unwindset=u13(33, 16), tier="thorough", bounds="ALL 33-byte strings (fully symbolic)"),
-        H("c13_avx2_full66", timeout=2700, unwindset=u13(66, 16), tier="thorough", bounds="ALL 66-byte strings (fully symbolic)"),
-        H("c13_broadword_win40_at5_multi", timeout=1800, unwindset=u13(40, 36), tier="thorough", bounds="40 bytes multi-byte filler, 4-byte window at 5"),
-        H("c13_dispatch_len4", timeout=900, unwindset=u13(4), bounds="validate_utf8 / validate_utf8_simd wrappers == scalar, all 4-byte strings, avx2 solver-chosen", replay="trace"),
-        H("c13_err_at_len7", timeout=600, unwindset=u13(7), bounds="line/column of every offset, all 7-byte buffers"),
-        H("c13_err_at_len17", timeout=900, unwindset=u13(17), bounds="all 17-byte buffers (two 8-byte words + tail)"),
-        H("c13_err_at_len26", timeout=1800, unwindset=u13(26), tier="thorough", bounds="all 26-byte buffers"),
-        H("c13_codepoint_roundtrip", timeout=600, bounds="every u32"),
-        H("c13_decode_matches_table", timeout=600, bounds="every string of 0..=4 bytes"),
-        H("c13_witness_must_fail", kind="witness", tier="thorough", timeout=600, unwindset=u13(4)),
+        H("c13_scalar_win17_at9", tier="thorough", timeout=900, unwindset=u13(17, 14), bounds="17 bytes, 6-byte window at 9"),
+        H("c13_scalar_win22_at10_multi", tier="thorough", timeout=900, unwindset=u13(22, 36), bounds="22 bytes multi-byte filler, 4-byte window at 10"),
+        H("c13_broadword_win12_at4", tier="quick", timeout=900, unwindset=u13(12, 14), bounds="12 bytes, 6-byte window at 4 (8-byte word skip)"),
+        H("c13_scalar_win20_at12", tier="thorough", timeout=900, unwindset=u13(20, 14), bounds="20 bytes, 6-byte window at 12"),
+        H("c13_broadword_win41_at30", tier="thorough", timeout=900, unwindset=u13(41, 14), bounds="41 bytes, 6-byte window at 30 (32-byte block skip)"),
+        H("c13_broadword_win36_at0", tier="thorough", timeout=900, unwindset=u13(36, 14), bounds="36 bytes, 5-byte window at 0"),
+        H("c13_avx2_win33_at27", tier="quick", timeout=1800, unwindset=u13(33, 14), bounds="33 bytes, 6-byte window at 27 (crosses the chunk boundary)"),
+        H("c13_avx2_win36_at28", tier="thorough", timeout=2700, unwindset=u13(36, 16), bounds="36 bytes, 8-byte window at 28"),
+        H("c13_avx2_win36_at30", tier="quick", timeout=1800, unwindset=u13(36, 14), bounds="36 bytes, 6-byte window at 30"),
+        H("c13_avx2_win34_at0", tier="thorough", timeout=1800, unwindset=u13(34, 14), bounds="34 bytes, 6-byte window at 0"),
+        H("c13_avx2_win65_at60", tier="thorough", timeout=2700, unwindset=u13(65, 14), bounds="65 bytes, 5-byte window at 60 (second boundary)"),
+        H("c13_avx2_win40_at29_multi", tier="thorough", timeout=1800, unwindset=u13(40, 36), bounds="40 bytes multi-byte filler, 4-byte window at 29"),
+        H("c13_avx2_win8_at2", tier="quick", timeout=900, unwindset=u13(8, 14), bounds="8 bytes (tail-only path), 6-byte window"),
+        H("c13_avx2_win32_at24", tier="thorough", timeout=1800, unwindset=u13(32, 16), bounds="32 bytes exactly one chunk, 8-byte window at 24"),
+        H("c13_avx2_win40_at20_w16", tier="thorough", timeout=2700, unwindset=u13(40, 16), bounds="40 bytes, 16-byte window across the chunk boundary"),
+        H("c13_avx2_win66_at28", tier="quick", timeout=1800, unwindset=u13(66, 16), bounds="66 bytes, 8-byte window across the first chunk boundary, a full ASCII chunk after it"),
+        H("c13_avx2_win98_at58", tier="thorough", timeout=2700, unwindset=u13(98, 16), bounds="98 bytes, 8-byte window across the second chunk boundary"),
+        H("c13_avx2_full33", tier="thorough", timeout=2700, unwindset=u13(33, 16), bounds="ALL 33-byte strings (fully symbolic)"),
+        H("c13_avx2_full66", tier="thorough", timeout=2700, unwindset=u13(66, 16), bounds="ALL 66-byte strings (fully symbolic)"),
+        H("c13_broadword_win40_at5_multi", tier="thorough", timeout=1800, unwindset=u13(40, 36), bounds="40 bytes multi-byte filler, 4-byte window at 5"),
+        H("c13_dispatch_len4", tier="quick", timeout=900, unwindset=u13(4), bounds="validate_utf8 / validate_utf8_simd wrappers == scalar, all 4-byte strings, avx2 solver-chosen", replay="trace"),
+        H("c13_err_at_len7", tier="quick", timeout=600, unwindset=u13(7), bounds="line/column of every offset, all 7-byte buffers"),
+        H("c13_err_at_len17", tier="quick", timeout=900, unwindset=u13(17), bounds="all 17-byte buffers (two 8-byte words + tail)"),
+        H("c13_err_at_len26", tier="thorough", timeout=1800, unwindset=u13(26), bounds="all 26-byte buffers"),
+        H("c13_codepoint_roundtrip", tier="quick", timeout=600, bounds="every u32"),
+        H("c13_decode_matches_table", tier="quick", timeout=600, bounds="every string of 0..=4 bytes"),
+        H("c13_witness_must_fail", tier="thorough", kind="witness", timeout=600, unwindset=u13(4)),
     ],
 )
 
@@ -322,28 +322,28 @@ PROPS["C20"] = dict(
     outside="texts longer than 130 bytes (more chunks repeat the same carry step); aarch64 engines",
     assumptions=["_pdep_u64 replaced by models.rs; dispatcher probes solver-chosen"],
     harnesses=[
-        H("c20_scalar_70", timeout=900, unwindset=U20, bounds="scalar builder, 70 bytes"),
-        H("c20_scalar_5", timeout=300, unwindset=U20, bounds="scalar builder, 5 bytes"),
-        H("c20_sse2_70", timeout=1800, unwindset=U20, bounds="SSE2, 70 bytes"),
-        H("c20_avx2_70", timeout=1800, unwindset=U20, bounds="AVX2, 70 bytes"),
-        H("c20_bmi2_70", timeout=1800, unwindset=U20, bounds="BMI2, 70 bytes"),
-        H("c20_sse2_64", timeout=1800, unwindset=U20, tier="thorough", bounds="SSE2, 64 bytes"),
-        H("c20_avx2_64", timeout=1800, unwindset=U20, tier="thorough", bounds="AVX2, 64 bytes"),
-        H("c20_bmi2_64", timeout=1800, unwindset=U20, tier="thorough", bounds="BMI2, 64 bytes"),
-        H("c20_sse2_63", timeout=1800, unwindset=U20, tier="thorough", bounds="SSE2, 63 bytes"),
-        H("c20_avx2_65", timeout=1800, unwindset=U20, tier="thorough", bounds="AVX2, 65 bytes"),
-        H("c20_bmi2_65", timeout=1800, unwindset=U20, tier="thorough", bounds="BMI2, 65 bytes"),
-        H("c20_sse2_130", timeout=2700, unwindset=U20, tier="thorough", bounds="SSE2, 130 bytes"),
-        H("c20_avx2_130", timeout=2700, unwindset=U20, tier="thorough", bounds="AVX2, 130 bytes"),
-        H("c20_bmi2_130", timeout=2700, unwindset=U20, tier="thorough", bounds="BMI2, 130 bytes"),
-        H("c20_avx2_7", timeout=900, unwindset=U20, bounds="AVX2, 7 bytes (tail only)"),
-        H("c20_dispatch_70", timeout=2700, unwindset=U20, tier="thorough", bounds="dispatcher, 70 bytes, probes symbolic", replay="trace"),
-        H("c20_empty", timeout=300, unwindset=U20, bounds="empty text, all engines"),
-        H("c20_toggle64_scalar", timeout=600, unwindset=U20, bounds="all (carry, mask)"),
-        H("c20_toggle64_bmi2", timeout=600, unwindset=U20, bounds="all (carry, mask), PDEP model"),
-        H("c20_prefix_xor", timeout=300, bounds="all x:u64"),
-        H("c20_index_rank_select_70", timeout=2700, unwindset=U20, tier="thorough", bounds="rank/select of the built index vs bit counting, 70 bytes"),
-        H("c20_witness_must_fail", kind="witness", tier="thorough", timeout=300),
+        H("c20_scalar_70", tier="quick", timeout=900, unwindset=U20, bounds="scalar builder, 70 bytes"),
+        H("c20_scalar_5", tier="quick", timeout=300, unwindset=U20, bounds="scalar builder, 5 bytes"),
+        H("c20_sse2_70", tier="quick", timeout=1800, unwindset=U20, bounds="SSE2, 70 bytes"),
+        H("c20_avx2_70", tier="quick", timeout=1800, unwindset=U20, bounds="AVX2, 70 bytes"),
+        H("c20_bmi2_70", tier="quick", timeout=1800, unwindset=U20, bounds="BMI2, 70 bytes"),
+        H("c20_sse2_64", tier="thorough", timeout=1800, unwindset=U20, bounds="SSE2, 64 bytes"),
+        H("c20_avx2_64", tier="thorough", timeout=1800, unwindset=U20, bounds="AVX2, 64 bytes"),
+        H("c20_bmi2_64", tier="thorough", timeout=1800, unwindset=U20, bounds="BMI2, 64 bytes"),
+        H("c20_sse2_63", tier="thorough", timeout=1800, unwindset=U20, bounds="SSE2, 63 bytes"),
+        H("c20_avx2_65", tier="thorough", timeout=1800, unwindset=U20, bounds="AVX2, 65 bytes"),
+        H("c20_bmi2_65", tier="thorough", timeout=1800, unwindset=U20, bounds="BMI2, 65 bytes"),
+        H("c20_sse2_130", tier="thorough", timeout=2700, unwindset=U20, bounds="SSE2, 130 bytes"),
+        H("c20_avx2_130", tier="thorough", timeout=2700, unwindset=U20, bounds="AVX2, 130 bytes"),
+        H("c20_bmi2_130", tier="thorough", timeout=2700, unwindset=U20, bounds="BMI2, 130 bytes"),
+        H("c20_avx2_7", tier="quick", timeout=900, unwindset=U20, bounds="AVX2, 7 bytes (tail only)"),
+        H("c20_dispatch_70", tier="thorough", timeout=2700, unwindset=U20, bounds="dispatcher, 70 bytes, probes symbolic", replay="trace"),
+        H("c20_empty", tier="quick", timeout=300, unwindset=U20, bounds="empty text, all engines"),
+        H("c20_toggle64_scalar", tier="quick", timeout=600, unwindset=U20, bounds="all (carry, mask)"),
+        H("c20_toggle64_bmi2", tier="quick", timeout=600, unwindset=U20, bounds="all (carry, mask), PDEP model"),
+        H("c20_prefix_xor", tier="quick", timeout=300, bounds="all x:u64"),
+        H("c20_index_rank_select_70", tier="thorough", timeout=2700, unwindset=U20, bounds="rank/select of the built index vs bit counting, 70 bytes"),
+        H("c20_witness_must_fail", tier="thorough", kind="witness", timeout=300),
     ],
 )
 
@@ -359,27 +359,38 @@ PROPS["C21"] = dict(
     outside="texts longer than 6 bytes; Dsv (owned) wrapper and the SIMD-built index (C20 shows every engine builds the same index words)",
     assumptions=["index built by the scalar builder; in-word select of the DSV index is its own CTZ loop"],
     harnesses=[
-        H("c21_rows_fields_len1", timeout=600, unwindset=u21(1), bounds="all 1-byte texts"),
-        H("c21_rows_fields_len2", timeout=600, unwindset=u21(2), bounds="all 2-byte texts"),
-        H("c21_rows_fields_len3", timeout=900, unwindset=u21(3), bounds="all 3-byte texts"),
-        H("c21_rows_fields_len4", timeout=1800, unwindset=u21(4), bounds="all 4-byte texts"),
-        H("c21_rows_fields_len5", timeout=2700, unwindset=u21(5), tier="thorough", bounds="all 5-byte texts"),
-        H("c21_rows_fields_len6", timeout=2700, unwindset=u21(6), tier="thorough", bounds="all 6-byte texts"),
-        H("c21_trailing_delimiter_len2", kind="finding", finding="C21-trailing-empty-field", timeout=600, unwindset=u21(2),
+        H("c21_rows_fields_len1", tier="quick", timeout=600, unwindset=u21(1), bounds="all 1-byte texts"),
+        H("c21_rows_fields_len2", tier="quick", timeout=600, unwindset=u21(2), bounds="all 2-byte texts"),
+        H("c21_rows_fields_len3", tier="quick", timeout=900, unwindset=u21(3), bounds="all 3-byte texts"),
+        H("c21_rows_fields_len4", tier="thorough", timeout=1800, unwindset=u21(4), bounds="all 4-byte texts"),
+        H("c21_rows_fields_len5", tier="thorough", timeout=2700, unwindset=u21(5), bounds="all 5-byte texts"),
+        H("c21_rows_fields_len6", tier="thorough", timeout=2700, unwindset=u21(6), bounds="all 6-byte texts"),
+        H("c21_trailing_delimiter_len2", tier="quick", kind="finding", finding="C21-trailing-empty-field", timeout=600, unwindset=u21(2),
           bounds="2-byte texts whose last byte is an unquoted delimiter"),
-        H("c21_trailing_delimiter_len4", kind="finding", finding="C21-trailing-empty-field", timeout=1800, unwindset=u21(4),
+        H("c21_trailing_delimiter_len4", tier="thorough", kind="finding", finding="C21-trailing-empty-field", timeout=1800, unwindset=u21(4),
           bounds="4-byte texts whose last byte is an unquoted delimiter"),
-        H("c21_append_separator_len3", timeout=900, unwindset=u21(4), bounds="3-byte texts + separator"),
-        H("c21_append_separator_len4", timeout=1800, unwindset=u21(5), bounds="4-byte texts + separator"),
-        H("c21_append_separator_len5", timeout=2700, unwindset=u21(6), tier="thorough", bounds="5-byte texts + separator"),
-        H("c21_append_separator_trailing_delimiter_len3", kind="finding", finding="C21-trailing-empty-field", timeout=900, unwindset=u21(4),
+        H("c21_append_separator_len3", tier="quick", timeout=900, unwindset=u21(4), bounds="3-byte texts + separator"),
+        H("c21_append_separator_len4", tier="thorough", timeout=1800, unwindset=u21(5), bounds="4-byte texts + separator"),
+        H("c21_append_separator_len5", tier="thorough", timeout=2700, unwindset=u21(6), bounds="5-byte texts + separator"),
+        H("c21_append_separator_trailing_delimiter_len3", tier="thorough", kind="finding", finding="C21-trailing-empty-field", timeout=900, unwindset=u21(4),
           bounds="3-byte texts ending in an unquoted delimiter + separator"),
-        H("c21_witness_must_fail", kind="witness", tier="thorough", timeout=600, unwindset=u21(3)),
+        H("c21_witness_must_fail", tier="thorough", kind="witness", timeout=600, unwindset=u21(3)),
     ],
 )
 
 U09 = {r"first_escape": 72, r"json_escape.*(avx2|sse2|scalar)": 34, r"Sink.*write_str": 14, r"decode_one": 5,
        r"c09_yq_span|c09_witness": 42, r"write_json_body": 42, r"find": 34}
+
+def u09w(chars, maxwrite):
+    d = dict(U09)
+    d[r"write_json_body"] = chars + 2
+    d[r"Sink.*write_str"] = maxwrite + 2
+    d[r"Chars|chars|next_code_point"] = chars + 2
+    # the scanner runs on at most maxwrite+few bytes here: chunk loops 1-3 iterations, scalar tail < 18
+    d[r"json_escape.*(avx2|sse2|scalar)"] = 6 if maxwrite < 16 else 18
+    d[r"find"] = 6 if maxwrite < 16 else 18
+    return d
+
 
 PROPS["C09"] = dict(
     module="c09",
@@ -389,43 +400,47 @@ PROPS["C09"] = dict(
     outside="strings of more than 3 arbitrary characters at once; start offsets not listed; aarch64; the `scalar-yaml` build of the scanner",
     assumptions=["_mm256_subs_epu8/_mm_subs_epu8 replaced by models.rs; util::simd::escape::avx2_enabled fixed or solver-chosen per harness"],
     harnesses=[
-        H("c09_scan_avx2_n40_s0", timeout=900, unwindset=U09, tier="quick", bounds="all buffers of that length, start as named"),
-        H("c09_scan_avx2_n40_s1", timeout=900, unwindset=U09, tier="thorough", bounds="all buffers of that length, start as named"),
-        H("c09_scan_avx2_n40_s7", timeout=900, unwindset=U09, tier="thorough", bounds="all buffers of that length, start as named"),
-        H("c09_scan_avx2_n40_s8", timeout=900, unwindset=U09, tier="thorough", bounds="all buffers of that length, start as named"),
-        H("c09_scan_avx2_n40_s9", timeout=900, unwindset=U09, tier="quick", bounds="all buffers of that length, start as named"),
-        H("c09_scan_avx2_n40_s24", timeout=900, unwindset=U09, tier="thorough", bounds="all buffers of that length, start as named"),
-        H("c09_scan_avx2_n40_s25", timeout=900, unwindset=U09, tier="quick", bounds="all buffers of that length, start as named"),
-        H("c09_scan_avx2_n40_s39", timeout=900, unwindset=U09, tier="thorough", bounds="all buffers of that length, start as named"),
-        H("c09_scan_avx2_n40_s40", timeout=900, unwindset=U09, tier="quick", bounds="all buffers of that length, start as named"),
-        H("c09_scan_avx2_n40_s41", timeout=900, unwindset=U09, tier="thorough", bounds="all buffers of that length, start as named"),
-        H("c09_scan_avx2_n33_s0", timeout=900, unwindset=U09, tier="quick", bounds="all buffers of that length, start as named"),
-        H("c09_scan_avx2_n32_s0", timeout=900, unwindset=U09, tier="thorough", bounds="all buffers of that length, start as named"),
-        H("c09_scan_avx2_n31_s0", timeout=900, unwindset=U09, tier="thorough", bounds="all buffers of that length, start as named"),
-        H("c09_scan_avx2_n17_s0", timeout=900, unwindset=U09, tier="thorough", bounds="all buffers of that length, start as named"),
-        H("c09_scan_avx2_n16_s0", timeout=900, unwindset=U09, tier="quick", bounds="all buffers of that length, start as named"),
-        H("c09_scan_avx2_n15_s0", timeout=900, unwindset=U09, tier="thorough", bounds="all buffers of that length, start as named"),
-        H("c09_scan_avx2_n70_s3", timeout=900, unwindset=U09, tier="thorough", bounds="all buffers of that length, start as named"),
-        H("c09_scan_sse2_n40_s0", timeout=900, unwindset=U09, tier="thorough", bounds="all buffers of that length, start as named"),
-        H("c09_scan_sse2_n40_s5", timeout=900, unwindset=U09, tier="quick", bounds="all buffers of that length, start as named"),
-        H("c09_scan_sse2_n40_s24", timeout=900, unwindset=U09, tier="thorough", bounds="all buffers of that length, start as named"),
-        H("c09_scan_sse2_n40_s25", timeout=900, unwindset=U09, tier="thorough", bounds="all buffers of that length, start as named"),
-        H("c09_scan_sse2_n33_s0", timeout=900, unwindset=U09, tier="quick", bounds="all buffers of that length, start as named"),
-        H("c09_scan_sse2_n17_s1", timeout=900, unwindset=U09, tier="thorough", bounds="all buffers of that length, start as named"),
-        H("c09_scan_sse2_n16_s0", timeout=900, unwindset=U09, tier="thorough", bounds="all buffers of that length, start as named"),
-        H("c09_scan_sse2_n15_s0", timeout=900, unwindset=U09, tier="quick", bounds="all buffers of that length, start as named"),
-        H("c09_scan_any_n34_s1", timeout=900, unwindset=U09, tier="quick", bounds="all buffers of that length, start as named", replay="trace"),
-        H("c09_writer_jq_2c", timeout=1800, unwindset=U09, bounds="all pairs of scalar values, jq convention", replay="trace"),
-        H("c09_writer_jq_ascii_2c", timeout=1800, unwindset=U09, bounds="all pairs of scalar values, jq ASCII", replay="trace"),
-        H("c09_writer_yq_2c", timeout=1800, unwindset=U09, bounds="all pairs of scalar values, yq convention", replay="trace"),
-        H("c09_writer_yq_ascii_2c", timeout=1800, unwindset=U09, bounds="all pairs of scalar values, yq ASCII", replay="trace"),
-        H("c09_yq_span_at0", timeout=1800, unwindset=U09, tier="thorough", bounds="window at 0"),
-        H("c09_yq_span_at14", timeout=1800, unwindset=U09, bounds="window at 14 (crosses byte 16)"),
-        H("c09_yq_span_at15", timeout=1800, unwindset=U09, tier="thorough", bounds="window at 15, SSE2"),
-        H("c09_yq_span_at30", timeout=1800, unwindset=U09, bounds="window at 30 (crosses byte 32)"),
-        H("c09_yq_span_at31", timeout=1800, unwindset=U09, tier="thorough", bounds="window at 31"),
-        H("c09_yq_span_at37", timeout=1800, unwindset=U09, tier="thorough", bounds="window at 37 (scalar tail), SSE2"),
-        H("c09_witness_must_fail", kind="witness", tier="thorough", timeout=600, unwindset=U09),
+        H("c09_scan_avx2_n40_s0", tier="quick", timeout=900, unwindset=U09, bounds="all buffers of that length, start as named"),
+        H("c09_scan_avx2_n40_s1", tier="thorough", timeout=900, unwindset=U09, bounds="all buffers of that length, start as named"),
+        H("c09_scan_avx2_n40_s7", tier="thorough", timeout=900, unwindset=U09, bounds="all buffers of that length, start as named"),
+        H("c09_scan_avx2_n40_s8", tier="thorough", timeout=900, unwindset=U09, bounds="all buffers of that length, start as named"),
+        H("c09_scan_avx2_n40_s9", tier="quick", timeout=900, unwindset=U09, bounds="all buffers of that length, start as named"),
+        H("c09_scan_avx2_n40_s24", tier="thorough", timeout=900, unwindset=U09, bounds="all buffers of that length, start as named"),
+        H("c09_scan_avx2_n40_s25", tier="quick", timeout=900, unwindset=U09, bounds="all buffers of that length, start as named"),
+        H("c09_scan_avx2_n40_s39", tier="thorough", timeout=900, unwindset=U09, bounds="all buffers of that length, start as named"),
+        H("c09_scan_avx2_n40_s40", tier="quick", timeout=900, unwindset=U09, bounds="all buffers of that length, start as named"),
+        H("c09_scan_avx2_n40_s41", tier="thorough", timeout=900, unwindset=U09, bounds="all buffers of that length, start as named"),
+        H("c09_scan_avx2_n33_s0", tier="quick", timeout=900, unwindset=U09, bounds="all buffers of that length, start as named"),
+        H("c09_scan_avx2_n32_s0", tier="thorough", timeout=900, unwindset=U09, bounds="all buffers of that length, start as named"),
+        H("c09_scan_avx2_n31_s0", tier="thorough", timeout=900, unwindset=U09, bounds="all buffers of that length, start as named"),
+        H("c09_scan_avx2_n17_s0", tier="thorough", timeout=900, unwindset=U09, bounds="all buffers of that length, start as named"),
+        H("c09_scan_avx2_n16_s0", tier="quick", timeout=900, unwindset=U09, bounds="all buffers of that length, start as named"),
+        H("c09_scan_avx2_n15_s0", tier="thorough", timeout=900, unwindset=U09, bounds="all buffers of that length, start as named"),
+        H("c09_scan_avx2_n70_s3", tier="thorough", timeout=900, unwindset=U09, bounds="all buffers of that length, start as named"),
+        H("c09_scan_sse2_n40_s0", tier="thorough", timeout=900, unwindset=U09, bounds="all buffers of that length, start as named"),
+        H("c09_scan_sse2_n40_s5", tier="quick", timeout=900, unwindset=U09, bounds="all buffers of that length, start as named"),
+        H("c09_scan_sse2_n40_s24", tier="thorough", timeout=900, unwindset=U09, bounds="all buffers of that length, start as named"),
+        H("c09_scan_sse2_n40_s25", tier="thorough", timeout=900, unwindset=U09, bounds="all buffers of that length, start as named"),
+        H("c09_scan_sse2_n33_s0", tier="quick", timeout=900, unwindset=U09, bounds="all buffers of that length, start as named"),
+        H("c09_scan_sse2_n17_s1", tier="thorough", timeout=900, unwindset=U09, bounds="all buffers of that length, start as named"),
+        H("c09_scan_sse2_n16_s0", tier="thorough", timeout=900, unwindset=U09, bounds="all buffers of that length, start as named"),
+        H("c09_scan_sse2_n15_s0", tier="quick", timeout=900, unwindset=U09, bounds="all buffers of that length, start as named"),
+        H("c09_scan_any_n34_s1", tier="quick", timeout=900, unwindset=U09, bounds="all buffers of that length, start as named", replay="trace"),
+        H("c09_writer_jq_1c", tier="quick", timeout=1800, unwindset=u09w(1, 6), bounds="every Unicode scalar value, jq convention", replay="trace"),
+        H("c09_writer_jq_ascii_1c", tier="quick", timeout=1800, unwindset=u09w(1, 6), bounds="every Unicode scalar value, jq ASCII", replay="trace"),
+        H("c09_writer_yq_1c", tier="quick", timeout=1800, unwindset=u09w(1, 6), bounds="every Unicode scalar value, yq convention", replay="trace"),
+        H("c09_writer_yq_ascii_1c", tier="quick", timeout=1800, unwindset=u09w(1, 6), bounds="every Unicode scalar value, yq ASCII", replay="trace"),
+        H("c09_writer_jq_2c", tier="quick", timeout=2700, unwindset=u09w(3, 6), bounds="all pairs of scalar values, jq convention", replay="trace"),
+        H("c09_writer_jq_ascii_2c", tier="thorough", timeout=2700, unwindset=u09w(3, 6), bounds="all pairs of scalar values, jq ASCII", replay="trace"),
+        H("c09_writer_yq_2c", tier="thorough", timeout=2700, unwindset=u09w(3, 6), bounds="all pairs of scalar values, yq convention", replay="trace"),
+        H("c09_writer_yq_ascii_2c", tier="thorough", timeout=2700, unwindset=u09w(3, 6), bounds="all pairs of scalar values, yq ASCII", replay="trace"),
+        H("c09_yq_span_at0", tier="thorough", timeout=1800, unwindset=u09w(4, 40), bounds="window at 0"),
+        H("c09_yq_span_at14", tier="thorough", timeout=2700, unwindset=u09w(4, 40), bounds="window at 14 (crosses byte 16)"),
+        H("c09_yq_span_at15", tier="thorough", timeout=1800, unwindset=u09w(4, 40), bounds="window at 15, SSE2"),
+        H("c09_yq_span_at30", tier="thorough", timeout=2700, unwindset=u09w(4, 40), bounds="window at 30 (crosses byte 32)"),
+        H("c09_yq_span_at31", tier="thorough", timeout=1800, unwindset=u09w(4, 40), bounds="window at 31"),
+        H("c09_yq_span_at37", tier="thorough", timeout=1800, unwindset=u09w(4, 40), bounds="window at 37 (scalar tail), SSE2"),
+        H("c09_witness_must_fail", tier="thorough", kind="witness", timeout=600, unwindset=U09),
     ],
 )
 
@@ -444,28 +459,28 @@ PROPS["C05"] = dict(
     outside="strings longer than 65 bytes (more chunks repeat the same carried-state step); aarch64 engines",
     assumptions=["_mm{,256}_min_epu8 and _mm{,256}_sub_epi8 replaced by models.rs (Kani cannot lower simd_select / reports a spurious simd_sub overflow)"],
     harnesses=[
-        H("c05_pfsm_tables", timeout=300, bounds="all 4 x 256 table entries"),
-        H("c05_short_len4", timeout=600, unwindset=u05(4), bounds="all 4-byte strings: scalar, PFSM, simple"),
-        H("c05_short_len6", timeout=900, unwindset=u05(6), bounds="all 6-byte strings"),
-        H("c05_short_len8", timeout=1800, unwindset=u05(8), tier="thorough", bounds="all 8-byte strings"),
-        H("c05_short_len10", timeout=2700, unwindset=u05(10), tier="thorough", bounds="all 10-byte strings"),
-        H("c05_avx2_std_33", timeout=1200, unwindset=u05(33), tier="quick", bounds="all strings of that length vs reference machine"),
-        H("c05_avx2_std_34", timeout=1200, unwindset=u05(34), tier="thorough", bounds="all strings of that length vs reference machine"),
-        H("c05_avx2_std_40", timeout=1200, unwindset=u05(40), tier="thorough", bounds="all strings of that length vs reference machine"),
-        H("c05_avx2_std_65", timeout=1200, unwindset=u05(65), tier="thorough", bounds="all strings of that length vs reference machine"),
-        H("c05_avx2_std_32", timeout=1200, unwindset=u05(32), tier="thorough", bounds="all strings of that length vs reference machine"),
-        H("c05_avx2_std_7", timeout=1200, unwindset=u05(7), tier="quick", bounds="all strings of that length vs reference machine"),
-        H("c05_sse2_std_17", timeout=1200, unwindset=u05(17), tier="quick", bounds="all strings of that length vs reference machine"),
-        H("c05_sse2_std_33", timeout=1200, unwindset=u05(33), tier="thorough", bounds="all strings of that length vs reference machine"),
-        H("c05_sse2_std_40", timeout=1200, unwindset=u05(40), tier="thorough", bounds="all strings of that length vs reference machine"),
-        H("c05_sse2_std_16", timeout=1200, unwindset=u05(16), tier="thorough", bounds="all strings of that length vs reference machine"),
-        H("c05_avx2_simple_33", timeout=1200, unwindset=u05(33), tier="quick", bounds="all strings of that length vs reference machine"),
-        H("c05_avx2_simple_40", timeout=1200, unwindset=u05(40), tier="thorough", bounds="all strings of that length vs reference machine"),
-        H("c05_sse2_simple_17", timeout=1200, unwindset=u05(17), tier="quick", bounds="all strings of that length vs reference machine"),
-        H("c05_sse2_simple_33", timeout=1200, unwindset=u05(33), tier="thorough", bounds="all strings of that length vs reference machine"),
-        H("c05_dispatch_std_34", timeout=2700, unwindset=u05(34), tier="thorough", bounds="dispatcher, 34 bytes", replay="trace"),
-        H("c05_dispatch_simple_34", timeout=2700, unwindset=u05(34), tier="thorough", bounds="dispatcher (simple), 34 bytes", replay="trace"),
-        H("c05_witness_must_fail", kind="witness", tier="thorough", timeout=600, unwindset=u05(4)),
+        H("c05_pfsm_tables", tier="quick", timeout=300, bounds="all 4 x 256 table entries"),
+        H("c05_short_len4", tier="quick", timeout=600, unwindset=u05(4), bounds="all 4-byte strings: scalar, PFSM, simple"),
+        H("c05_short_len6", tier="quick", timeout=900, unwindset=u05(6), bounds="all 6-byte strings"),
+        H("c05_short_len8", tier="thorough", timeout=1800, unwindset=u05(8), bounds="all 8-byte strings"),
+        H("c05_short_len10", tier="thorough", timeout=2700, unwindset=u05(10), bounds="all 10-byte strings"),
+        H("c05_avx2_std_33", tier="quick", timeout=1200, unwindset=u05(33), bounds="all strings of that length vs reference machine"),
+        H("c05_avx2_std_34", tier="thorough", timeout=1200, unwindset=u05(34), bounds="all strings of that length vs reference machine"),
+        H("c05_avx2_std_40", tier="thorough", timeout=1200, unwindset=u05(40), bounds="all strings of that length vs reference machine"),
+        H("c05_avx2_std_65", tier="thorough", timeout=1200, unwindset=u05(65), bounds="all strings of that length vs reference machine"),
+        H("c05_avx2_std_32", tier="thorough", timeout=1200, unwindset=u05(32), bounds="all strings of that length vs reference machine"),
+        H("c05_avx2_std_7", tier="quick", timeout=1200, unwindset=u05(7), bounds="all strings of that length vs reference machine"),
+        H("c05_sse2_std_17", tier="quick", timeout=1200, unwindset=u05(17), bounds="all strings of that length vs reference machine"),
+        H("c05_sse2_std_33", tier="thorough", timeout=1200, unwindset=u05(33), bounds="all strings of that length vs reference machine"),
+        H("c05_sse2_std_40", tier="thorough", timeout=1200, unwindset=u05(40), bounds="all strings of that length vs reference machine"),
+        H("c05_sse2_std_16", tier="thorough", timeout=1200, unwindset=u05(16), bounds="all strings of that length vs reference machine"),
+        H("c05_avx2_simple_33", tier="quick", timeout=1200, unwindset=u05(33), bounds="all strings of that length vs reference machine"),
+        H("c05_avx2_simple_40", tier="thorough", timeout=1200, unwindset=u05(40), bounds="all strings of that length vs reference machine"),
+        H("c05_sse2_simple_17", tier="quick", timeout=1200, unwindset=u05(17), bounds="all strings of that length vs reference machine"),
+        H("c05_sse2_simple_33", tier="thorough", timeout=1200, unwindset=u05(33), bounds="all strings of that length vs reference machine"),
+        H("c05_dispatch_std_34", tier="thorough", timeout=2700, unwindset=u05(34), bounds="dispatcher, 34 bytes", replay="trace"),
+        H("c05_dispatch_simple_34", tier="thorough", timeout=2700, unwindset=u05(34), bounds="dispatcher (simple), 34 bytes", replay="trace"),
+        H("c05_witness_must_fail", tier="thorough", kind="witness", timeout=600, unwindset=u05(4)),
     ],
 )
 
@@ -479,18 +494,18 @@ PROPS["C07"] = dict(
              "(the BP navigation they rest on is C04, the index bits C05); more than 12 interest-bit words"),
     assumptions=["_pdep_u64 replaced by models.rs", "BalancedParens part of the index built over a single zero word (not the subject)"],
     harnesses=[
-        H("c07_ib_1w", timeout=600, unwindset=U07, bounds="1 word"),
-        H("c07_ib_4w", timeout=2700, unwindset=U07, tier="thorough", bounds="4 words, CTZ"),
-        H("c07_ib_4w_pdep", timeout=900, unwindset=U07, bounds="4 words, PDEP model"),
-        H("c07_ib_9w", timeout=1800, unwindset=U07, tier="thorough", bounds="9 words (three galloping doublings)"),
-        H("c07_ib_12w", timeout=2700, unwindset=U07, tier="thorough", bounds="12 words"),
-        H("c07_hint_2w", timeout=1800, unwindset=U07, bounds="2 words, every k, every hint 0..=12"),
-        H("c07_hint_4w", timeout=2700, unwindset=U07, bounds="4 words, every hint 0..=14"),
-        H("c07_hint_9w", timeout=2700, unwindset=U07, tier="thorough", bounds="9 words (three galloping doublings), every hint 0..=19"),
-        H("c07_hint_12w", timeout=2700, unwindset=U07, tier="thorough", bounds="12 words, every hint 0..=22"),
-        H("c07_ib_empty", timeout=300, bounds="no words"),
-        H("c07_from_serialized_parts_2w", timeout=900, unwindset=U07, bounds="2 words through the byte serialization"),
-        H("c07_witness_must_fail", kind="witness", tier="thorough", timeout=600, unwindset=U07),
+        H("c07_ib_1w", tier="quick", timeout=600, unwindset=U07, bounds="1 word"),
+        H("c07_ib_4w", tier="thorough", timeout=2700, unwindset=U07, bounds="4 words, CTZ"),
+        H("c07_ib_4w_pdep", tier="quick", timeout=900, unwindset=U07, bounds="4 words, PDEP model"),
+        H("c07_ib_9w", tier="thorough", timeout=1800, unwindset=U07, bounds="9 words (three galloping doublings)"),
+        H("c07_ib_12w", tier="thorough", timeout=2700, unwindset=U07, bounds="12 words"),
+        H("c07_hint_2w", tier="quick", timeout=1800, unwindset=U07, bounds="2 words, every k, every hint 0..=12"),
+        H("c07_hint_4w", tier="quick", timeout=2700, unwindset=U07, bounds="4 words, every hint 0..=14"),
+        H("c07_hint_9w", tier="thorough", timeout=2700, unwindset=U07, bounds="9 words (three galloping doublings), every hint 0..=19"),
+        H("c07_hint_12w", tier="thorough", timeout=2700, unwindset=U07, bounds="12 words, every hint 0..=22"),
+        H("c07_ib_empty", tier="quick", timeout=300, bounds="no words"),
+        H("c07_from_serialized_parts_2w", tier="quick", timeout=900, unwindset=U07, bounds="2 words through the byte serialization"),
+        H("c07_witness_must_fail", tier="thorough", kind="witness", timeout=600, unwindset=U07),
     ],
 )
 
@@ -521,22 +536,22 @@ PROPS["C08"] = dict(
                  "recursion of the validator is cut at the skeleton depth; CBMC's recursion unwinding assertions show deeper frames unreachable",
                  "container validators absent from a skeleton are replaced by a panicking stub, so their unreachability is an assertion"],
     harnesses=[
-        H("c08_top_w3", timeout=1200, bounds="w=3 at top level", **c08(3, 3, 1, 0, 0)),
-        H("c08_top_w4", timeout=1800, bounds="w=4 at top level", **c08(4, 4, 1, 0, 0)),
-        H("c08_top_w5", timeout=2700, tier="thorough", bounds="w=5 at top level", **c08(5, 5, 1, 0, 0)),
-        H("c08_arr_w3", timeout=1800, bounds="[w], w=3", **c08(5, 3, 2, 1, 0)),
-        H("c08_arr_w4", timeout=2700, tier="thorough", bounds="[w], w=4", **c08(6, 4, 2, 1, 0)),
-        H("c08_arr_after_w3", timeout=1800, tier="thorough", bounds="[1,w], w=3", **c08(7, 3, 2, 1, 0)),
-        H("c08_arr2_w2", timeout=1800, tier="thorough", bounds="[[w]], w=2", **c08(6, 2, 3, 2, 0)),
-        H("c08_objval_w3", timeout=1800, bounds="{\"a\":w}, w=3", **c08(9, 3, 2, 0, 1)),
-        H("c08_objkey_w3", timeout=1800, tier="thorough", bounds="{w:1}, w=3", **c08(7, 3, 2, 0, 1)),
-        H("c08_str_w4", timeout=1800, bounds="\"w\", w=4", **c08(6, 4, 1, 0, 0)),
-        H("c08_str_w5", timeout=2700, tier="thorough", bounds="\"w\", w=5", **c08(7, 5, 1, 0, 0)),
-        H("c08_uesc_w4", timeout=1800, tier="thorough", bounds="\"\\\\uw\", w=4", **c08(8, 4, 1, 0, 0)),
-        H("c08_minus_w3", timeout=1200, bounds="-w, w=3", **c08(4, 3, 1, 0, 0)),
-        H("c08_digit_w4", timeout=1800, tier="thorough", bounds="1w, w=4", **c08(5, 4, 1, 0, 0)),
-        H("c08_ws_w3", timeout=1800, tier="thorough", bounds="whitespace / CR LF around w=3", **c08(8, 3, 1, 0, 0)),
-        H("c08_witness_must_fail", kind="witness", tier="thorough", timeout=900, **c08(2, 2, 1, 0, 0)),
+        H("c08_top_w3", tier="quick", timeout=1200, bounds="w=3 at top level", **c08(3, 3, 1, 0, 0)),
+        H("c08_top_w4", tier="quick", timeout=1800, bounds="w=4 at top level", **c08(4, 4, 1, 0, 0)),
+        H("c08_top_w5", tier="thorough", timeout=2700, bounds="w=5 at top level", **c08(5, 5, 1, 0, 0)),
+        H("c08_arr_w3", tier="thorough", timeout=1800, bounds="[w], w=3", **c08(5, 3, 2, 1, 0)),
+        H("c08_arr_w4", tier="thorough", timeout=2700, bounds="[w], w=4", **c08(6, 4, 2, 1, 0)),
+        H("c08_arr_after_w3", tier="thorough", timeout=1800, bounds="[1,w], w=3", **c08(7, 3, 2, 1, 0)),
+        H("c08_arr2_w2", tier="thorough", timeout=1800, bounds="[[w]], w=2", **c08(6, 2, 3, 2, 0)),
+        H("c08_objval_w3", tier="thorough", timeout=1800, bounds="{\"a\":w}, w=3", **c08(9, 3, 2, 0, 1)),
+        H("c08_objkey_w3", tier="thorough", timeout=1800, bounds="{w:1}, w=3", **c08(7, 3, 2, 0, 1)),
+        H("c08_str_w4", tier="quick", timeout=1800, bounds="\"w\", w=4", **c08(6, 4, 1, 0, 0)),
+        H("c08_str_w5", tier="thorough", timeout=2700, bounds="\"w\", w=5", **c08(7, 5, 1, 0, 0)),
+        H("c08_uesc_w4", tier="thorough", timeout=1800, bounds="\"\\\\uw\", w=4", **c08(8, 4, 1, 0, 0)),
+        H("c08_minus_w3", tier="quick", timeout=1200, bounds="-w, w=3", **c08(4, 3, 1, 0, 0)),
+        H("c08_digit_w4", tier="thorough", timeout=1800, bounds="1w, w=4", **c08(5, 4, 1, 0, 0)),
+        H("c08_ws_w3", tier="thorough", timeout=1800, bounds="whitespace / CR LF around w=3", **c08(8, 3, 1, 0, 0)),
+        H("c08_witness_must_fail", tier="thorough", kind="witness", timeout=900, **c08(2, 2, 1, 0, 0)),
     ],
 )
 
@@ -610,17 +625,17 @@ PROPS["C32"] = dict(
     outside="documents longer than 8 bytes; the AVX2 simple builder inside SimpleJsonIndex::build (SSE2 path taken; C05 decides builder equality)",
     assumptions=["is_x86_feature_detected!(avx2) = false (SSE2 builder), CTZ in-word select", "validity of the input is the harness recogniser's Accept (assumed)"],
     harnesses=[
-        H("c32_structural_len2", timeout=1800, unwindset=u32_(2), tier="quick", bounds="all valid 2-byte documents: structural queries at every position"),
-        H("c32_structural_len4", timeout=1800, unwindset=u32_(4), tier="quick", bounds="all valid 4-byte documents: structural queries at every position"),
-        H("c32_structural_len6", timeout=1800, unwindset=u32_(6), tier="thorough", bounds="all valid 6-byte documents: structural queries at every position"),
-        H("c32_structural_len8", timeout=1800, unwindset=u32_(8), tier="thorough", bounds="all valid 8-byte documents: structural queries at every position"),
-        H("c32_close_len4", timeout=1800, unwindset=u32_(4), tier="quick", bounds="all valid 4-byte documents: close queries at every position"),
-        H("c32_close_len6", timeout=1800, unwindset=u32_(6), tier="thorough", bounds="all valid 6-byte documents: close queries at every position"),
-        H("c32_close_len8", timeout=1800, unwindset=u32_(8), tier="thorough", bounds="all valid 8-byte documents: close queries at every position"),
-        H("c32_skip_len4", timeout=1800, unwindset=u32_(4), tier="quick", bounds="all valid 4-byte documents: skip queries at every position"),
-        H("c32_skip_len6", timeout=1800, unwindset=u32_(6), tier="thorough", bounds="all valid 6-byte documents: skip queries at every position"),
-        H("c32_skip_len8", timeout=1800, unwindset=u32_(8), tier="thorough", bounds="all valid 8-byte documents: skip queries at every position"),
-        H("c32_witness_must_fail", kind="witness", tier="thorough", timeout=1800, unwindset=u32_(4)),
+        H("c32_structural_len2", tier="quick", timeout=1800, unwindset=u32_(2), bounds="all valid 2-byte documents: structural queries at every position"),
+        H("c32_structural_len4", tier="quick", timeout=1800, unwindset=u32_(4), bounds="all valid 4-byte documents: structural queries at every position"),
+        H("c32_structural_len6", tier="thorough", timeout=1800, unwindset=u32_(6), bounds="all valid 6-byte documents: structural queries at every position"),
+        H("c32_structural_len8", tier="thorough", timeout=1800, unwindset=u32_(8), bounds="all valid 8-byte documents: structural queries at every position"),
+        H("c32_close_len4", tier="quick", timeout=1800, unwindset=u32_(4), bounds="all valid 4-byte documents: close queries at every position"),
+        H("c32_close_len6", tier="thorough", timeout=1800, unwindset=u32_(6), bounds="all valid 6-byte documents: close queries at every position"),
+        H("c32_close_len8", tier="thorough", timeout=1800, unwindset=u32_(8), bounds="all valid 8-byte documents: close queries at every position"),
+        H("c32_skip_len4", tier="quick", timeout=1800, unwindset=u32_(4), bounds="all valid 4-byte documents: skip queries at every position"),
+        H("c32_skip_len6", tier="thorough", timeout=1800, unwindset=u32_(6), bounds="all valid 6-byte documents: skip queries at every position"),
+        H("c32_skip_len8", tier="thorough", timeout=1800, unwindset=u32_(8), bounds="all valid 8-byte documents: skip queries at every position"),
+        H("c32_witness_must_fail", tier="thorough", kind="witness", timeout=1800, unwindset=u32_(4)),
     ],
 )
 
@@ -642,50 +657,50 @@ PROPS["C04"] = dict(
              "these harnesses (a 2-word vector stays inside one L0/L1/L2 block)"),
     assumptions=["BMI2 probe solver-chosen, AVX2 block popcount modelled in the select harnesses"],
     harnesses=[
-        H("c04_free_close_len100", timeout=2700, unwindset=U04, tier="thorough", bounds="free find_close, 2 arbitrary words, len 100, every p <= 131"),
-        H("c04_free_close_len128", timeout=2700, unwindset=U04, tier="thorough", bounds="free find_close, 2 arbitrary words, len 128, every p <= 131"),
-        H("c04_free_close_len65", timeout=2700, unwindset=U04, tier="thorough", bounds="free find_close, 2 arbitrary words, len 65, every p <= 131"),
-        H("c04_free_open_len100", timeout=2700, unwindset=U04, tier="thorough", bounds="free find_open, 2 arbitrary words, len 100, every p <= 131"),
-        H("c04_free_open_len128", timeout=2700, unwindset=U04, tier="thorough", bounds="free find_open, 2 arbitrary words, len 128, every p <= 131"),
-        H("c04_free_open_len65", timeout=2700, unwindset=U04, tier="thorough", bounds="free find_open, 2 arbitrary words, len 65, every p <= 131"),
-        H("c04_free_enclose_len100", timeout=2700, unwindset=U04, tier="thorough", bounds="free enclose, 2 arbitrary words, len 100, every p <= 131"),
-        H("c04_free_enclose_len128", timeout=2700, unwindset=U04, tier="thorough", bounds="free enclose, 2 arbitrary words, len 128, every p <= 131"),
-        H("c04_free_enclose_len65", timeout=2700, unwindset=U04, tier="thorough", bounds="free enclose, 2 arbitrary words, len 65, every p <= 131"),
-        H("c04_free_close_len63", timeout=2700, unwindset=U04, tier="thorough", bounds="free find_close, len 63"),
-        H("c04_free_open_len64", timeout=2700, unwindset=U04, tier="thorough", bounds="free find_open, len 64"),
-        H("c04_free_enclose_len63", timeout=2700, unwindset=U04, tier="thorough", bounds="free enclose, len 63"),
-        H("c04_w1_close_len40", timeout=1800, unwindset=U04W1, bounds="BalancedParens on 1 arbitrary word, len 40: find_close"),
-        H("c04_w1_open_len40", timeout=2700, unwindset=U04W1, tier="thorough", bounds="1 word, len 40: find_open, enclose/parent"),
-        H("c04_w1_rank_len40", timeout=1800, unwindset=U04W1, bounds="1 word, len 40: rank/excess/depth/first_child/select0"),
-        H("c04_w1_derived_len40", timeout=1800, unwindset=U04W1, tier="thorough", bounds="1 word, len 40: next_sibling, subtree_size"),
-        H("c04_w1_close_len64", timeout=1800, unwindset=U04W1, tier="thorough", bounds="1 word, len 64: find_close"),
-        H("c04_w1_open_len64", timeout=1800, unwindset=U04W1, tier="thorough", bounds="1 word, len 64: find_open, enclose"),
-        H("c04_bp_close_len100", timeout=2700, unwindset=U04, tier="thorough", bounds="BalancedParens close_len100, 2 arbitrary words, all p,k <= 131"),
-        H("c04_bp_derived_len100", timeout=2700, unwindset=U04, tier="thorough", bounds="BalancedParens derived_len100, 2 arbitrary words, all p,k <= 131"),
-        H("c04_bp_open_len100", timeout=2700, unwindset=U04, tier="thorough", bounds="BalancedParens open_len100, 2 arbitrary words, all p,k <= 131"),
-        H("c04_bp_rank_len100", timeout=2700, unwindset=U04, tier="thorough", bounds="BalancedParens rank_len100, 2 arbitrary words, all p,k <= 131"),
-        H("c04_bp_close_len128", timeout=2700, unwindset=U04, tier="thorough", bounds="BalancedParens close_len128, 2 arbitrary words, all p,k <= 131"),
-        H("c04_bp_open_len128", timeout=2700, unwindset=U04, tier="thorough", bounds="BalancedParens open_len128, 2 arbitrary words, all p,k <= 131"),
-        H("c04_bp_rank_len128", timeout=2700, unwindset=U04, tier="thorough", bounds="BalancedParens rank_len128, 2 arbitrary words, all p,k <= 131"),
-        H("c04_bp_close_len65", timeout=2700, unwindset=U04, tier="thorough", bounds="BalancedParens close_len65, 2 arbitrary words, all p,k <= 131"),
-        H("c04_bp_open_len65", timeout=2700, unwindset=U04, tier="thorough", bounds="BalancedParens open_len65, 2 arbitrary words, all p,k <= 131"),
-        H("c04_bp_rank_len65", timeout=2700, unwindset=U04, tier="thorough", bounds="BalancedParens rank_len65, 2 arbitrary words, all p,k <= 131"),
-        H("c04_bp_close_len64", timeout=2700, unwindset=U04, tier="thorough", bounds="BalancedParens close_len64, 2 arbitrary words, all p,k <= 131"),
-        H("c04_bp_open_len64", timeout=2700, unwindset=U04, tier="thorough", bounds="BalancedParens open_len64, 2 arbitrary words, all p,k <= 131"),
-        H("c04_bp_close_len63", timeout=2700, unwindset=U04, tier="thorough", bounds="BalancedParens close_len63, 2 arbitrary words, all p,k <= 131"),
-        H("c04_bp_rank_len63", timeout=2700, unwindset=U04, tier="thorough", bounds="BalancedParens rank_len63, 2 arbitrary words, all p,k <= 131"),
-        H("c04_bp_close_len1", timeout=2700, unwindset=U04, tier="thorough", bounds="BalancedParens close_len1, 2 arbitrary words, all p,k <= 131"),
-        H("c04_bp_rank_len1", timeout=2700, unwindset=U04, tier="thorough", bounds="BalancedParens rank_len1, 2 arbitrary words, all p,k <= 131"),
-        H("c04_bp_borrowed_close_len100", timeout=2700, unwindset=U04, tier="thorough", bounds="BalancedParens borrowed_close_len100, 2 arbitrary words, all p,k <= 131"),
-        H("c04_bp_borrowed_open_len100", timeout=2700, unwindset=U04, tier="thorough", bounds="BalancedParens borrowed_open_len100, 2 arbitrary words, all p,k <= 131"),
-        H("c04_bp_borrowed_rank_len100", timeout=2700, unwindset=U04, tier="thorough", bounds="BalancedParens borrowed_rank_len100, 2 arbitrary words, all p,k <= 131"),
-        H("c04_bp_borrowed_close_len65", timeout=2700, unwindset=U04, tier="thorough", bounds="BalancedParens borrowed_close_len65, 2 arbitrary words, all p,k <= 131"),
-        H("c04_bp_borrowed_rank_len65", timeout=2700, unwindset=U04, tier="thorough", bounds="BalancedParens borrowed_rank_len65, 2 arbitrary words, all p,k <= 131"),
-        H("c04_bp_withselect_len100", timeout=2700, unwindset=U04, tier="thorough", bounds="WithSelect, len 100", replay="trace"),
-        H("c04_bp_cspoppy_len100", timeout=2700, unwindset=U04, tier="thorough", bounds="WithCsPoppy default rate, len 100", replay="trace"),
-        H("c04_bp_cspoppy_rate1_len100", timeout=2700, unwindset=U04, tier="thorough", bounds="WithCsPoppy rate 1", replay="trace"),
-        H("c04_bp_cspoppy_rate7_len128", timeout=2700, unwindset=U04, tier="thorough", bounds="WithCsPoppy rate 7, len 128", replay="trace"),
-        H("c04_bp_cspoppy_rate4096_len65", timeout=2700, unwindset=U04, tier="thorough", bounds="WithCsPoppy rate 4096, len 65", replay="trace"),
-        H("c04_witness_must_fail", kind="witness", tier="thorough", timeout=1800, unwindset=U04),
+        H("c04_free_close_len100", tier="thorough", timeout=2700, unwindset=U04, bounds="free find_close, 2 arbitrary words, len 100, every p <= 131"),
+        H("c04_free_close_len128", tier="thorough", timeout=2700, unwindset=U04, bounds="free find_close, 2 arbitrary words, len 128, every p <= 131"),
+        H("c04_free_close_len65", tier="thorough", timeout=2700, unwindset=U04, bounds="free find_close, 2 arbitrary words, len 65, every p <= 131"),
+        H("c04_free_open_len100", tier="thorough", timeout=2700, unwindset=U04, bounds="free find_open, 2 arbitrary words, len 100, every p <= 131"),
+        H("c04_free_open_len128", tier="thorough", timeout=2700, unwindset=U04, bounds="free find_open, 2 arbitrary words, len 128, every p <= 131"),
+        H("c04_free_open_len65", tier="thorough", timeout=2700, unwindset=U04, bounds="free find_open, 2 arbitrary words, len 65, every p <= 131"),
+        H("c04_free_enclose_len100", tier="thorough", timeout=2700, unwindset=U04, bounds="free enclose, 2 arbitrary words, len 100, every p <= 131"),
+        H("c04_free_enclose_len128", tier="thorough", timeout=2700, unwindset=U04, bounds="free enclose, 2 arbitrary words, len 128, every p <= 131"),
+        H("c04_free_enclose_len65", tier="thorough", timeout=2700, unwindset=U04, bounds="free enclose, 2 arbitrary words, len 65, every p <= 131"),
+        H("c04_free_close_len63", tier="thorough", timeout=2700, unwindset=U04, bounds="free find_close, len 63"),
+        H("c04_free_open_len64", tier="thorough", timeout=2700, unwindset=U04, bounds="free find_open, len 64"),
+        H("c04_free_enclose_len63", tier="thorough", timeout=2700, unwindset=U04, bounds="free enclose, len 63"),
+        H("c04_w1_close_len40", tier="quick", timeout=1800, unwindset=U04W1, bounds="BalancedParens on 1 arbitrary word, len 40: find_close"),
+        H("c04_w1_open_len40", tier="thorough", timeout=2700, unwindset=U04W1, bounds="1 word, len 40: find_open, enclose/parent"),
+        H("c04_w1_rank_len40", tier="quick", timeout=1800, unwindset=U04W1, bounds="1 word, len 40: rank/excess/depth/first_child/select0"),
+        H("c04_w1_derived_len40", tier="thorough", timeout=1800, unwindset=U04W1, bounds="1 word, len 40: next_sibling, subtree_size"),
+        H("c04_w1_close_len64", tier="thorough", timeout=1800, unwindset=U04W1, bounds="1 word, len 64: find_close"),
+        H("c04_w1_open_len64", tier="thorough", timeout=1800, unwindset=U04W1, bounds="1 word, len 64: find_open, enclose"),
+        H("c04_bp_close_len100", tier="thorough", timeout=2700, unwindset=U04, bounds="BalancedParens close_len100, 2 arbitrary words, all p,k <= 131"),
+        H("c04_bp_derived_len100", tier="thorough", timeout=2700, unwindset=U04, bounds="BalancedParens derived_len100, 2 arbitrary words, all p,k <= 131"),
+        H("c04_bp_open_len100", tier="thorough", timeout=2700, unwindset=U04, bounds="BalancedParens open_len100, 2 arbitrary words, all p,k <= 131"),
+        H("c04_bp_rank_len100", tier="thorough", timeout=2700, unwindset=U04, bounds="BalancedParens rank_len100, 2 arbitrary words, all p,k <= 131"),
+        H("c04_bp_close_len128", tier="thorough", timeout=2700, unwindset=U04, bounds="BalancedParens close_len128, 2 arbitrary words, all p,k <= 131"),
+        H("c04_bp_open_len128", tier="thorough", timeout=2700, unwindset=U04, bounds="BalancedParens open_len128, 2 arbitrary words, all p,k <= 131"),
+        H("c04_bp_rank_len128", tier="thorough", timeout=2700, unwindset=U04, bounds="BalancedParens rank_len128, 2 arbitrary words, all p,k <= 131"),
+        H("c04_bp_close_len65", tier="thorough", timeout=2700, unwindset=U04, bounds="BalancedParens close_len65, 2 arbitrary words, all p,k <= 131"),
+        H("c04_bp_open_len65", tier="thorough", timeout=2700, unwindset=U04, bounds="BalancedParens open_len65, 2 arbitrary words, all p,k <= 131"),
+        H("c04_bp_rank_len65", tier="thorough", timeout=2700, unwindset=U04, bounds="BalancedParens rank_len65, 2 arbitrary words, all p,k <= 131"),
+        H("c04_bp_close_len64", tier="thorough", timeout=2700, unwindset=U04, bounds="BalancedParens close_len64, 2 arbitrary words, all p,k <= 131"),
+        H("c04_bp_open_len64", tier="thorough", timeout=2700, unwindset=U04, bounds="BalancedParens open_len64, 2 arbitrary words, all p,k <= 131"),
+        H("c04_bp_close_len63", tier="thorough", timeout=2700, unwindset=U04, bounds="BalancedParens close_len63, 2 arbitrary words, all p,k <= 131"),
+        H("c04_bp_rank_len63", tier="thorough", timeout=2700, unwindset=U04, bounds="BalancedParens rank_len63, 2 arbitrary words, all p,k <= 131"),
+        H("c04_bp_close_len1", tier="thorough", timeout=2700, unwindset=U04, bounds="BalancedParens close_len1, 2 arbitrary words, all p,k <= 131"),
+        H("c04_bp_rank_len1", tier="thorough", timeout=2700, unwindset=U04, bounds="BalancedParens rank_len1, 2 arbitrary words, all p,k <= 131"),
+        H("c04_bp_borrowed_close_len100", tier="thorough", timeout=2700, unwindset=U04, bounds="BalancedParens borrowed_close_len100, 2 arbitrary words, all p,k <= 131"),
+        H("c04_bp_borrowed_open_len100", tier="thorough", timeout=2700, unwindset=U04, bounds="BalancedParens borrowed_open_len100, 2 arbitrary words, all p,k <= 131"),
+        H("c04_bp_borrowed_rank_len100", tier="thorough", timeout=2700, unwindset=U04, bounds="BalancedParens borrowed_rank_len100, 2 arbitrary words, all p,k <= 131"),
+        H("c04_bp_borrowed_close_len65", tier="thorough", timeout=2700, unwindset=U04, bounds="BalancedParens borrowed_close_len65, 2 arbitrary words, all p,k <= 131"),
+        H("c04_bp_borrowed_rank_len65", tier="thorough", timeout=2700, unwindset=U04, bounds="BalancedParens borrowed_rank_len65, 2 arbitrary words, all p,k <= 131"),
+        H("c04_bp_withselect_len100", tier="thorough", timeout=2700, unwindset=U04, bounds="WithSelect, len 100", replay="trace"),
+        H("c04_bp_cspoppy_len100", tier="thorough", timeout=2700, unwindset=U04, bounds="WithCsPoppy default rate, len 100", replay="trace"),
+        H("c04_bp_cspoppy_rate1_len100", tier="thorough", timeout=2700, unwindset=U04, bounds="WithCsPoppy rate 1", replay="trace"),
+        H("c04_bp_cspoppy_rate7_len128", tier="thorough", timeout=2700, unwindset=U04, bounds="WithCsPoppy rate 7, len 128", replay="trace"),
+        H("c04_bp_cspoppy_rate4096_len65", tier="thorough", timeout=2700, unwindset=U04, bounds="WithCsPoppy rate 4096, len 65", replay="trace"),
+        H("c04_witness_must_fail", tier="thorough", kind="witness", timeout=1800, unwindset=U04),
     ],
 )
